@@ -116,6 +116,11 @@ def listChildrenOK (k : Kind) (cs : List ANode) : Bool :=
       else cs.all isBlockShape
   | .params | .destructuring => cs.all fun x => isParam x || isPassable x
   | .raw => cs.all rawChildOK
+  | .ref =>
+      (match cs with
+        | [.leaf .refMarker t _] => refMarkerOK t
+        | [.leaf .refMarker t _, b] => refMarkerOK t && isBlockShape b
+        | _ => false)
   | .funcCall =>
       -- callee and arguments; dot chains (callee a field access) and `table`/`grid` are laid out by other code
       (match cs with
@@ -130,7 +135,7 @@ def inFrag : ANode → Bool
   | .leaf k t a => ANode.tokensAreLeaves (.leaf k t a) && (!k.isExpr || k.isFragLeaf || (k == .parbreak && !a.disabled) || k == .none_ || k == .auto_) && (!k.isInnerKind || (k == .markup && t == ""))
   | .inner k cs _ =>
     (k.isFragFlow || k.isFragElem || (k.isFragList && listChildrenOK k cs) || k == .code ||
-      ((k.isFragWrap || k == .markup || k == .args || k == .funcCall || k == .params || k == .destructuring || k == .raw) && listChildrenOK k cs) || k.isFragItem || k == .setRule || k == .closure || k == .forLoop) && inFragL cs
+      ((k.isFragWrap || k == .markup || k == .args || k == .funcCall || k == .params || k == .destructuring || k == .raw || k == .ref) && listChildrenOK k cs) || k.isFragItem || k == .setRule || k == .closure || k == .forLoop) && inFragL cs
 def inFragL : List ANode → Bool
   | [] => true
   | c :: cs => inFrag c && inFragL cs
@@ -138,7 +143,7 @@ end
 
 theorem fragKind_inner (k : Kind) (cs : List ANode)
     (h : (k.isFragFlow || k.isFragElem || (k.isFragList && listChildrenOK k cs) || k == .code ||
-      ((k.isFragWrap || k == .markup || k == .args || k == .funcCall || k == .params || k == .destructuring || k == .raw) && listChildrenOK k cs) || k.isFragItem || k == .setRule || k == .closure || k == .forLoop) = true) : k.isInnerKind = true := by
+      ((k.isFragWrap || k == .markup || k == .args || k == .funcCall || k == .params || k == .destructuring || k == .raw || k == .ref) && listChildrenOK k cs) || k.isFragItem || k == .setRule || k == .closure || k == .forLoop) = true) : k.isInnerKind = true := by
   cases k <;> simp_all [Kind.isFragFlow, Kind.isFragElem, Kind.isFragList, Kind.isFragWrap, Kind.isFragItem, Kind.isInnerKind]
 
 mutual
@@ -607,6 +612,54 @@ theorem convExpr_frag (e : Env) (r : Rec) (hr : RecOK r Q) (ctx : Ctx) (hctx : N
                  have : cs' = [] := by simpa [ANode.children] using he
                  subst this
                  rw [specAll_inner .markup [] a' (by simp [isVerbatimNode, Kind.isExpr]) (by decide)]; rfl⟩) false)
+      by_cases hrefk : k = .ref
+      · subst hrefk
+        have hch : listChildrenOK .ref cs = true := by
+          have h1 := hq.1
+          simp [Kind.isFragFlow, Kind.isFragElem, Kind.isFragList, Kind.isFragWrap, Kind.isFragItem] at h1
+          exact h1
+        rw [specAll_inner .ref cs a (by simp [isVerbatimNode, hd']) (by decide)]
+        show Post (convRef e r ctx _) _
+        unfold convRef firstWhere lastWhere
+        simp only [listChildrenOK] at hch
+        rcases cs with _ | ⟨m, _ | ⟨b, _ | ⟨c2, rest⟩⟩⟩
+        · simp at hch
+        · -- `@target`
+          cases m with
+          | inner _ _ _ => simp at hch
+          | leaf km tm am =>
+            cases km <;> simp only [Bool.false_eq_true] at hch
+            simp only [ANode.children, List.find?, ANode.kind, beq_self_eq_true, childOr, M.pure_bind, ANode.text, List.reverse_cons,
+              List.reverse_nil, List.nil_append, show (Kind.refMarker == Kind.contentBlock) = false from rfl]
+            refine Post.pure ?_
+            simpa [specAllL_cons] using refMarker_carries e tm am hch
+        · -- `@target[supplement]`
+          cases m with
+          | inner _ _ _ => simp at hch
+          | leaf km tm am =>
+            cases km <;> simp only [Bool.false_eq_true] at hch
+            simp only [Bool.and_eq_true] at hch
+            have hbk := blockShape_kind b hch.2
+            have hbk' : b.kind = .contentBlock := by simpa using hbk
+            have hf1 : ([ANode.leaf .refMarker tm am, b] : List ANode).find? (fun x => x.kind == .refMarker) = some (.leaf .refMarker tm am) := by
+              rw [List.find?_cons]; rfl
+            have hf2 : ([ANode.leaf .refMarker tm am, b] : List ANode).reverse.find? (fun x => x.kind == .contentBlock) = some b := by
+              show ([b, ANode.leaf .refMarker tm am] : List ANode).find? _ = _
+              rw [List.find?_cons, hbk]
+            simp only [ANode.children, hf1, hf2, childOr, M.pure_bind, ANode.text]
+            have hqb : inFrag b = true := hqc b (by simp)
+            have hbc : ∀ c ∈ b.children, Q c := by
+              intro c hc
+              cases b with
+              | leaf _ _ _ => simp [isBlockShape] at hch
+              | inner kb cb ab =>
+                simp only [inFrag, Bool.and_eq_true] at hqb
+                exact inFragL_mem hqb.2 hc
+            refine Post.bind (contentBlock_carries e r hr ctx hctx b hch.2 (inFrag_lex b hqb) hbc) (fun d hd => Post.pure ?_)
+            simpa [specAllL_cons] using (refMarker_carries e tm am hch.1).app hd
+        · cases m with
+          | inner _ _ _ => simp at hch
+          | leaf km tm am => cases km <;> simp at hch
       by_cases hrawk : k = .raw
       · subst hrawk
         have hch : listChildrenOK .raw cs = true := by
